@@ -254,19 +254,19 @@ end Sf
 
 namespace Sf
 
-/-- what the second RDWR session starts from -/
-structure ReopenedRw (h : H) (F : Nat) (D : List Byte) (h' : H) (s' : Store) : Prop where
+/-- what an RDWR open of a file holding the `F` frames `D` (encoding `enc`, `chn` channels) starts from -/
+structure ReopenedRw (enc : Enc) (chn F : Nat) (D : List Byte) (h' : H) (s' : Store) : Prop where
   inv : RwInv h' s'
-  abs : absOf h' s' = { frames := groups h.bw D, rpos := 0, wpos := F }
-  ch : h'.ch = h.ch
-  enc : h'.enc = h.enc
+  abs : absOf h' s' = { frames := groups (enc.nbytes * chn) D, rpos := 0, wpos := F }
+  ch : h'.ch = chn
+  enc : h'.enc = enc
 
-theorem ReopenedRw.of_open {h : H} {F : Nat} {D : List Byte} {ix : Nat} {s0 : Store} {fmt : Nat} {ch sr : Int}
-    {h' : H} {s' : Store} (ho : openHandle ix s0 .rw fmt ch sr = .ok h' s') (hch : h'.ch = h.ch) (henc : h'.enc = h.enc)
+theorem ReopenedRw.of_open {enc : Enc} {chn F : Nat} {D : List Byte} {ix : Nat} {s0 : Store} {fmt : Nat} {ch sr : Int}
+    {h' : H} {s' : Store} (ho : openHandle ix s0 .rw fmt ch sr = .ok h' s') (hch : h'.ch = chn) (henc : h'.enc = enc)
     (hfr : h'.frames = (F : Int)) (hdo : h'.dataoffset = (hdrLenOf h' : Nat)) (hpk : h'.peak = none)
-    (hde : h'.dataend = 0) (hD : D.length = F * h.bw) (hdata : s'.bytes.drop (hdrLenOf h') = D)
-    (hlen : hdrLenOf h' ≤ s'.bytes.length) : ReopenedRw h F D h' s' := by
-  have eb : h'.bw = h.bw := by unfold H.bw; rw [henc, hch]
+    (hde : h'.dataend = 0) (hD : D.length = F * (enc.nbytes * chn)) (hdata : s'.bytes.drop (hdrLenOf h') = D)
+    (hlen : hdrLenOf h' ≤ s'.bytes.length) : ReopenedRw enc chn F D h' s' := by
+  have eb : h'.bw = enc.nbytes * chn := by unfold H.bw; rw [henc, hch]
   have hl : s'.bytes.length = hdrLenOf h' + D.length := by
     have := congrArg List.length hdata
     rw [List.length_drop] at this; omega
@@ -277,20 +277,16 @@ theorem ReopenedRw.of_open {h : H} {F : Nat} {D : List Byte} {ix : Nat} {s0 : St
   rw [hdo, hfr, hr, hw, hfr, Int.toNat_natCast, Int.toNat_natCast, hdata, eb, ← hD, List.take_length]
   rfl
 
-theorem RwView.reopen_rw_raw {h : H} {s : Store} {R W F : Nat} {hdr D : List Byte} (v : RwView h s R W F hdr D)
-    {fmt : Nat} {ch sr : Int} (cfg : CfgOf fmt ch sr h) (hc : h.container = .raw) (ix pos : Nat) :
-    ∃ h' s', openHandle ix ⟨(closeHandle h s).bytes, pos⟩ .rw fmt ch sr = .ok h' s' ∧ ReopenedRw h F D h' s' := by
-  rw [v.close_raw hc]
-  -- the RDWR open of a RAW file succeeds whenever the read-only one does; get it from the definition
-  have hcont : containerOf fmt = some .raw := by rw [cfg.cont, hc]
-  have henc : encOf .raw (codecOf fmt) (dataBig .raw fmt) = some h.enc := by
-    have := cfg.enc
-    have hb := cfg.big
-    rw [hc] at this hb
-    rw [← hb]; exact this
-  have h1 : ¬ (ch < 1 ∨ ch > 1024 ∨ sr < 0) := by have := cfg.chr; have := cfg.srr; omega
-  have h2 : ¬ sr < 1 := by have := cfg.srr; omega
-  have hex : ∃ h' s', openHandle ix ⟨D, pos⟩ .rw fmt ch sr = .ok h' s' ∧ h'.ch = ch.toNat ∧ h'.enc = h.enc ∧
+/-! ### the three images -/
+
+theorem raw_image_open_rw (fmt : Nat) (ch sr : Int) (enc : Enc) (hcont : containerOf fmt = some .raw)
+    (hchr : 1 ≤ ch ∧ ch ≤ 1024) (hsrr : 1 ≤ sr) (henc : encOf .raw (codecOf fmt) (dataBig .raw fmt) = some enc)
+    (D : List Byte) (F : Nat) (hD : D.length = F * (enc.nbytes * ch.toNat)) (ix pos : Nat) :
+    ∃ h' s', openHandle ix ⟨D, pos⟩ .rw fmt ch sr = .ok h' s' ∧ ReopenedRw enc ch.toNat F D h' s' := by
+  have h1 : ¬ (ch < 1 ∨ ch > 1024 ∨ sr < 0) := by omega
+  have h2 : ¬ sr < 1 := by omega
+  have hbw : 0 < enc.nbytes * ch.toNat := Nat.mul_pos (encOf_nbytes_pos_ct henc) (by omega)
+  have hex : ∃ h' s', openHandle ix ⟨D, pos⟩ .rw fmt ch sr = .ok h' s' ∧ h'.ch = ch.toNat ∧ h'.enc = enc ∧
       h'.container = .raw := by
     unfold openHandle
     simp only [hcont, henc, h1, h2, Store.seekSet]
@@ -298,103 +294,131 @@ theorem RwView.reopen_rw_raw {h : H} {s : Store} {R W F : Nat} {hdr D : List Byt
   obtain ⟨h', s', ho, e1, e2, e3⟩ := hex
   obtain ⟨_, _, _, _, _, _, _, hraw⟩ := open_rw_facts ix ⟨D, pos⟩ fmt ch sr h' s' ho
   obtain ⟨a, b, c, d, e⟩ := hraw e3
-  have hch : h'.ch = h.ch := by rw [e1, cfg.hch]
-  have eb : h'.bw = h.bw := by unfold H.bw; rw [e2, hch]
+  have eb : h'.bw = enc.nbytes * ch.toNat := by unfold H.bw; rw [e2, e1]
   have hO : hdrLenOf h' = 0 := by simp [hdrLenOf, e3]
-  refine ⟨h', s', ho, ReopenedRw.of_open ho hch e2 ?_ (by rw [a, hO]; rfl) b c v.dlen (by rw [hO, d]; rfl) (by rw [hO]; omega)⟩
-  rw [e]; simp only; rw [eb, v.dlen, Nat.mul_div_cancel _ v.bw_pos]
+  refine ⟨h', s', ho, ReopenedRw.of_open ho e1 e2 ?_ (by rw [a, hO]; rfl) b c hD (by rw [hO, d]; rfl) (by rw [hO]; omega)⟩
+  rw [e]; simp only; rw [eb, hD, Nat.mul_div_cancel _ hbw]
 
-theorem RwView.reopen_rw_au {h : H} {s : Store} {R W F : Nat} {hdr D : List Byte} (v : RwView h s R W F hdr D)
-    {fmt : Nat} {ch sr : Int} (cfg : CfgOf fmt ch sr h) (hc : h.container = .au) (hsr : sr ≤ 0x7FFFFFFF)
+theorem au_image_open_rw (big : Bool) (codec : Nat) (sr : Int) (chn : Nat) (enc : Enc)
+    (henc : encOf .au codec big = some enc) (hch : 1 ≤ chn ∧ chn ≤ 1024) (hsr : 1 ≤ sr ∧ sr ≤ 0x7FFFFFFF)
+    (D : List Byte) (F : Nat) (hD : D.length = F * (enc.nbytes * chn))
     (ix pos fmt0 : Nat) (ch0 sr0 : Int) (hraw : containerOf fmt0 ≠ some .raw) :
-    ∃ h' s', openHandle ix ⟨(closeHandle h s).bytes, pos⟩ .rw fmt0 ch0 sr0 = .ok h' s' ∧ ReopenedRw h F D h' s' := by
-  rw [v.close_au hc]
-  have henc : encOf .au (codecOf h.fmtWord) h.big = some h.enc := by
-    have := cfg.enc; rw [hc] at this; rw [cfg.fmtWord]; exact this
+    ∃ h' s', openHandle ix ⟨auHdr_ct big codec sr chn D.length ++ D, pos⟩ .rw fmt0 ch0 sr0 = .ok h' s' ∧
+      ReopenedRw enc chn F D h' s' := by
   have hcodec := encOf_au_codecs henc
-  have hch : 1 ≤ h.ch ∧ h.ch ≤ 1024 := by rw [cfg.hch]; have := cfg.chr; omega
-  have hsr' : 1 ≤ h.sr ∧ h.sr ≤ 0x7FFFFFFF := by rw [cfg.hsr]; exact ⟨cfg.srr, hsr⟩
-  have hparse := auParse_image h.big (codecOf h.fmtWord) h.sr h.ch D hcodec hch ⟨by omega, hsr'.2⟩
-  obtain ⟨hf1, hf2⟩ := au_fmtWord_facts h.big _ hcodec
-  have hlen : (auHdr_ct h.big (codecOf h.fmtWord) h.sr h.ch D.length).length = 24 := by
-    cases hb : h.big <;> simp [auHdr_ct]
-  have hne : auHdr_ct h.big (codecOf h.fmtWord) h.sr h.ch D.length ++ D ≠ [] := by
+  have hbw : 0 < enc.nbytes * chn := Nat.mul_pos (encOf_nbytes_pos_ct henc) (by omega)
+  have hparse := auParse_image big codec sr chn D hcodec hch ⟨by omega, hsr.2⟩
+  obtain ⟨hf1, hf2⟩ := au_fmtWord_facts big _ hcodec
+  have hlen : (auHdr_ct big codec sr chn D.length).length = 24 := by
+    cases big <;> simp [auHdr_ct]
+  have hne : auHdr_ct big codec sr chn D.length ++ D ≠ [] := by
     intro hc0
     have := congrArg List.length hc0
     rw [List.length_append, hlen] at this; simp at this
   obtain ⟨h', s', ho, hfr, h1, h2, h3, _, h5, _, h7, h8, h9⟩ :=
-    openHandle_rw_parsed ix _ pos fmt0 ch0 sr0 _ .au h.enc hne hraw (by rw [parseAny_au]; exact hparse) hf1
-      (by rw [hf2]; exact henc) hsr'.1
+    openHandle_rw_parsed ix _ pos fmt0 ch0 sr0 _ .au enc hne hraw (by rw [parseAny_au]; exact hparse) hf1
+      (by rw [hf2]; exact henc) hsr.1
   have hO : hdrLenOf h' = 24 := by simp [hdrLenOf, h3]
-  refine ⟨h', s', ho, ReopenedRw.of_open ho h1 h2 ?_ (by rw [h8, hO]) h5 h7 v.dlen ?_ ?_⟩
+  refine ⟨h', s', ho, ReopenedRw.of_open ho h1 h2 ?_ (by rw [h8, hO]) h5 h7 hD ?_ ?_⟩
   · rw [hfr]
-    have := initFrames_plain 24 D.length (h.enc.nbytes * h.ch) v.bw_pos
+    have := initFrames_plain 24 D.length (enc.nbytes * chn) hbw
     simp only at this ⊢
-    rw [this, v.dlen]
-    have e : h.enc.nbytes * h.ch = h.bw := rfl
-    rw [e, Nat.mul_div_cancel _ v.bw_pos]
+    rw [this, hD, Nat.mul_div_cancel _ hbw]
   · rw [h9, hO, ← hlen]; simp
   · rw [h9, hO, List.length_append, hlen]; omega
 
-end Sf
+/-- WAV without a PEAK chunk whose data section ends on an even offset (no pad byte) -/
+theorem wav_image_open_rw (big : Bool) (codec : Nat) (sr : Int) (chn : Nat) (enc : Enc)
+    (henc : encOf .wav codec big = some enc) (hch : 1 ≤ chn ∧ chn ≤ 1024) (hsr : 1 ≤ sr ∧ sr ≤ 0x7FFFFFFF)
+    (D : List Byte) (F : Nat) (hD : D.length = F * (enc.nbytes * chn)) (hguard : D.length < 0xFFFFFFFF) (fl : Int)
+    (heven : (wavHdrLen_ct codec chn false + D.length) % 2 = 0)
+    (ix pos fmt0 : Nat) (ch0 sr0 : Int) (hraw : containerOf fmt0 ≠ some .raw) :
+    ∃ h' s', openHandle ix ⟨wavHdr_ct big codec enc.nbytes chn sr F none true fl D.length ++ D, pos⟩ .rw fmt0 ch0 sr0 =
+        .ok h' s' ∧ ReopenedRw enc chn F D h' s' := by
+  obtain ⟨hcodec, hnb⟩ := encOf_wav_facts henc
+  have hbw : 0 < enc.nbytes * chn := Nat.mul_pos (encOf_nbytes_pos_ct henc) (by omega)
+  have himg : wavHdr_ct big codec enc.nbytes chn sr F none true fl D.length ++ D =
+      wavChain big codec (wavNb codec) chn sr (wavFact big codec F) [] fl D.length D := by
+    rw [wavHdr_chain, hnb]; rfl
+  have hO : wavHdrLen_ct codec chn false = 16 + wavFmtLen codec + (wavFact big codec F).length + 0 + 8 := by
+    simp only [wavHdrLen_ct, wavFact_length]
+    simp
+  have hparse := wavParse_chain_nopeak big codec chn sr (wavFact big codec F) []
+    fl D.length D hcodec hch (wavFact_shape _ _ _) rfl hguard (by simp) (by simp)
+  simp only [List.length_nil] at hparse
+  rw [← hO] at hparse
+  obtain ⟨hf1, hf2⟩ := wav_fmtWord_facts big _ hcodec
+  have hsrw : ((wrapU 32 sr : Nat) : Int) = sr := wrapU_of_range 32 sr (by omega) (by omega)
+  have hhl : (wavHdr_ct big codec enc.nbytes chn sr F none true fl D.length).length = wavHdrLen_ct codec chn false :=
+    wavHdr_length _ _ _ _ _ _ _ _ _ (fun ps hp => by cases hp)
+  have hO0 : 0 < wavHdrLen_ct codec chn false := by rw [hO]; omega
+  have hne : wavHdr_ct big codec enc.nbytes chn sr F none true fl D.length ++ D ≠ [] := by
+    intro hc0
+    have := congrArg List.length hc0
+    rw [List.length_append, hhl] at this; simp at this; omega
+  rw [himg] at hne ⊢
+  obtain ⟨h', s', ho, hfr, h1, h2, h3, h4, h5, h6, h7, h8, h9⟩ :=
+    openHandle_rw_parsed ix _ pos fmt0 ch0 sr0 _ .wav enc hne hraw (by rw [parseAny_wav]; exact hparse) hf1
+      (by rw [hf2]; exact henc) (by simp only; rw [hsrw]; exact hsr.1)
+  have hOl : hdrLenOf h' = wavHdrLen_ct codec chn false := by
+    have e4 : codecOf h'.fmtWord = codec := by rw [h4]; exact hf2
+    simp only [hdrLenOf, h3, wavHdrLen, h5, e4, wavHdrLen_ct, wavFmtLen]
+    simp
+  refine ⟨h', s', ho, ReopenedRw.of_open ho h1 h2 ?_ (by rw [h8, hOl]) h5 ?_ hD ?_ ?_⟩
+  · rw [hfr]
+    have hN : D.length / (enc.nbytes * chn) = F := by rw [hD]; exact Nat.mul_div_cancel _ hbw
+    have e1 : ¬ (D.length < D.length) := by omega
+    simp only [e1, if_false]
+    exact (initFrames_plain (wavHdrLen_ct codec chn false) D.length (enc.nbytes * chn) hbw).trans (by rw [hN])
+  · rw [h7]; simp
+  · rw [h9, hOl, ← himg, ← hhl]; simp
+  · rw [h9, hOl, ← himg, List.length_append, hhl]; omega
 
-namespace Sf
+/-! ### … applied to what `closeHandle` leaves -/
+
+theorem RwView.reopen_rw_raw {h : H} {s : Store} {R W F : Nat} {hdr D : List Byte} (v : RwView h s R W F hdr D)
+    {fmt : Nat} {ch sr : Int} (cfg : CfgOf fmt ch sr h) (hc : h.container = .raw) (ix pos : Nat) :
+    ∃ h' s', openHandle ix ⟨(closeHandle h s).bytes, pos⟩ .rw fmt ch sr = .ok h' s' ∧ ReopenedRw h.enc h.ch F D h' s' := by
+  rw [v.close_raw hc, cfg.hch]
+  have hcont : containerOf fmt = some .raw := by rw [cfg.cont, hc]
+  have henc : encOf .raw (codecOf fmt) (dataBig .raw fmt) = some h.enc := by
+    have := cfg.enc
+    have hb := cfg.big
+    rw [hc] at this hb
+    rw [← hb]; exact this
+  exact raw_image_open_rw fmt ch sr h.enc hcont cfg.chr cfg.srr henc D F (by rw [← cfg.hch]; exact v.dlen) ix pos
+
+theorem RwView.reopen_rw_au {h : H} {s : Store} {R W F : Nat} {hdr D : List Byte} (v : RwView h s R W F hdr D)
+    {fmt : Nat} {ch sr : Int} (cfg : CfgOf fmt ch sr h) (hc : h.container = .au) (hsr : sr ≤ 0x7FFFFFFF)
+    (ix pos fmt0 : Nat) (ch0 sr0 : Int) (hraw : containerOf fmt0 ≠ some .raw) :
+    ∃ h' s', openHandle ix ⟨(closeHandle h s).bytes, pos⟩ .rw fmt0 ch0 sr0 = .ok h' s' ∧ ReopenedRw h.enc h.ch F D h' s' := by
+  rw [v.close_au hc]
+  have henc : encOf .au (codecOf h.fmtWord) h.big = some h.enc := by
+    have := cfg.enc; rw [hc] at this; rw [cfg.fmtWord]; exact this
+  have hch : 1 ≤ h.ch ∧ h.ch ≤ 1024 := by rw [cfg.hch]; have := cfg.chr; omega
+  have hsr' : 1 ≤ h.sr ∧ h.sr ≤ 0x7FFFFFFF := by rw [cfg.hsr]; exact ⟨cfg.srr, hsr⟩
+  exact au_image_open_rw h.big _ h.sr h.ch h.enc henc hch hsr' D F v.dlen ix pos fmt0 ch0 sr0 hraw
+
+theorem hdrLenOf_wav_nopeak (h : H) (hc : h.container = .wav) (hp : h.peak = none) :
+    hdrLenOf h = wavHdrLen_ct (codecOf h.fmtWord) h.ch false := by
+  simp only [hdrLenOf, hc, wavHdrLen, hp, wavHdrLen_ct, wavFmtLen]
+  simp
 
 /-- WAV: when the data section ends on an even offset (no pad byte follows it) -/
 theorem RwView.reopen_rw_wav {h : H} {s : Store} {R W F : Nat} {hdr D : List Byte} (v : RwView h s R W F hdr D)
     {fmt : Nat} {ch sr : Int} (cfg : CfgOf fmt ch sr h) (hc : h.container = .wav) (hsr : sr ≤ 0x7FFFFFFF)
     (hguard : D.length < 0xFFFFFFFF) (heven : (hdrLenOf h + D.length) % 2 = 0)
     (ix pos fmt0 : Nat) (ch0 sr0 : Int) (hraw : containerOf fmt0 ≠ some .raw) :
-    ∃ h' s', openHandle ix ⟨(closeHandle h s).bytes, pos⟩ .rw fmt0 ch0 sr0 = .ok h' s' ∧ ReopenedRw h F D h' s' := by
+    ∃ h' s', openHandle ix ⟨(closeHandle h s).bytes, pos⟩ .rw fmt0 ch0 sr0 = .ok h' s' ∧ ReopenedRw h.enc h.ch F D h' s' := by
   rw [v.close_wav hc]
   have hpad : wavPadAt (hdrLenOf h + D.length) = [] := by unfold wavPadAt; rw [if_neg (by omega)]
   rw [hpad]
   simp only [List.length_nil, Nat.add_zero, List.append_nil]
   have henc : encOf .wav (codecOf h.fmtWord) h.big = some h.enc := by
     have := cfg.enc; rw [hc] at this; rw [cfg.fmtWord]; exact this
-  obtain ⟨hcodec, hnb⟩ := encOf_wav_facts henc
   have hch : 1 ≤ h.ch ∧ h.ch ≤ 1024 := by rw [cfg.hch]; have := cfg.chr; omega
   have hsr' : 1 ≤ h.sr ∧ h.sr ≤ 0x7FFFFFFF := by rw [cfg.hsr]; exact ⟨cfg.srr, hsr⟩
-  generalize hfl : ((hdrLenOf h + D.length : Nat) : Int) = fl
-  have himg : wavHdr_ct h.big (codecOf h.fmtWord) h.enc.nbytes h.ch h.sr F none true fl D.length ++ D =
-      wavChain h.big (codecOf h.fmtWord) (wavNb (codecOf h.fmtWord)) h.ch h.sr (wavFact h.big (codecOf h.fmtWord) F)
-        [] fl D.length D := by
-    rw [wavHdr_chain, hnb]; rfl
-  have hO : hdrLenOf h = 16 + wavFmtLen (codecOf h.fmtWord) + (wavFact h.big (codecOf h.fmtWord) F).length + 0 + 8 := by
-    simp only [hdrLenOf, hc, wavHdrLen, v.peak, wavFact_length, wavFmtLen]
-    simp
-  have hparse := wavParse_chain_nopeak h.big (codecOf h.fmtWord) h.ch h.sr (wavFact h.big (codecOf h.fmtWord) F) []
-    fl D.length D hcodec hch (wavFact_shape _ _ _) rfl hguard (by simp) (by simp)
-  simp only [List.length_nil] at hparse
-  rw [← hO] at hparse
-  obtain ⟨hf1, hf2⟩ := wav_fmtWord_facts h.big _ hcodec
-  have hsrw : ((wrapU 32 h.sr : Nat) : Int) = h.sr := wrapU_of_range 32 h.sr (by omega) (by omega)
-  have hhl : (wavHdr_ct h.big (codecOf h.fmtWord) h.enc.nbytes h.ch h.sr F none true fl D.length).length = hdrLenOf h := by
-    rw [wavHdr_length _ _ _ _ _ _ _ _ _ (fun ps hp => by cases hp)]
-    simp only [hdrLenOf, hc, wavHdrLen, v.peak, wavHdrLen_ct, wavFmtLen]
-    simp
-  have hO0 : 0 < hdrLenOf h := by rw [hO]; omega
-  have hne : wavHdr_ct h.big (codecOf h.fmtWord) h.enc.nbytes h.ch h.sr F none true fl D.length ++ D ≠ [] := by
-    intro hc0
-    have := congrArg List.length hc0
-    rw [List.length_append, hhl] at this; simp at this; omega
-  rw [himg] at hne ⊢
-  obtain ⟨h', s', ho, hfr, h1, h2, h3, h4, h5, h6, h7, h8, h9⟩ :=
-    openHandle_rw_parsed ix _ pos fmt0 ch0 sr0 _ .wav h.enc hne hraw (by rw [parseAny_wav]; exact hparse) hf1
-      (by rw [hf2]; exact henc) (by simp only; rw [hsrw]; exact hsr'.1)
-  have hOl : hdrLenOf h' = hdrLenOf h := by
-    have e4 : codecOf h'.fmtWord = codecOf h.fmtWord := by rw [h4]; exact hf2
-    simp only [hdrLenOf, h3, hc, wavHdrLen, h5, v.peak, e4]
-    rfl
-  refine ⟨h', s', ho, ReopenedRw.of_open ho h1 h2 ?_ (by rw [h8, hOl]) h5 ?_ v.dlen ?_ ?_⟩
-  · rw [hfr]
-    have hN : D.length / (h.enc.nbytes * h.ch) = F := by
-      rw [v.dlen]; exact Nat.mul_div_cancel _ v.bw_pos
-    have e1 : ¬ (D.length < D.length) := by omega
-    simp only [e1, if_false]
-    exact (initFrames_plain (hdrLenOf h) D.length (h.enc.nbytes * h.ch) v.bw_pos).trans (by rw [hN])
-  · rw [h7]; simp
-  · rw [h9, hOl, ← himg, ← hhl]; simp
-  · rw [h9, hOl, ← himg, List.length_append, hhl]; omega
+  exact wav_image_open_rw h.big _ h.sr h.ch h.enc henc hch hsr' D F v.dlen hguard _
+    (by rw [← hdrLenOf_wav_nopeak h hc v.peak]; exact heven) ix pos fmt0 ch0 sr0 hraw
 
 end Sf
